@@ -2062,10 +2062,11 @@ func (r *Raft) nextConfiguration(next *Configuration) {
 		}
 	}
 
-	// Create entry for added nodes.
+	// Create entry for added nodes. The next index must be a valid log index:
+	// if this node is the leader, it starts replicating to the added node from there.
 	for id := range next.Members {
 		if _, ok := r.configuration.Members[id]; !ok {
-			r.followers[id] = new(follower)
+			r.followers[id] = &follower{nextIndex: 1}
 		}
 	}
 }
